@@ -142,6 +142,10 @@ func tagSchemas() []string {
 		"{% filter add:{E} %}x{% endfilter %}", "{% filter slice:{E}|join:{E} %}abc{% endfilter %}",
 		"{% now {E} %}", "{% lorem {E} %}", "{% templatetag {E} %}", "{% autoescape {E} %}a{% endautoescape %}", "{% ssi {E} %}", "{% extends {E} %}", "{% import {E} m %}", "{% block {E} %}{% endblock %}", "{% spaceless %}{{ {E} }}{% endspaceless %}",
 		"{{ {E} + {E} }}", "{{ {E} - {E} }}", "{{ {E} * {E} }}", "{{ {E} / {E} }}", "{{ {E} % {E} }}", "{{ {E} ^ {E} }}", "{{ -{E} }}", "{{ !{E} }}", "{{ {E} in {E} }}", "{{ {E} == {E} }}", "{{ {E} != {E} }}", "{{ {E} <= {E} }}", "{{ {E} > {E} }}", "{{ {E} and {E} }}", "{{ {E} or {E} }}",
+		// names the engine itself binds, rebound by the template
+		"{% set forloop = {E} %}{% for x in sAbc %}{{ forloop.Counter }}{{ forloop.Parentloop }}{% endfor %}", "{% with forloop={E} %}{% for x in slI %}{{ forloop.Last }}{% for y in slI %}{{ forloop.Parentloop.Counter }}{% endfor %}{% endfor %}{% endwith %}",
+		"{% for forloop in {E} %}{% for x in slI %}{{ forloop }}{% endfor %}{% endfor %}", "{% set block = {E} %}{% block bq %}{{ block.Super }}{{ block }}{% endblock %}", "{% with pongo2={E} %}{{ pongo2.version }}{% endwith %}",
+		"{% macro forloop() %}m{% endmacro %}{% for x in slI %}{{ forloop }}{% endfor %}{{ forloop() }}", "{% set c = {E} %}{% cycle c %}{% cycle {E} as c %}{% cycle c %}", "{% for x in slI %}{% set forloop = {E} %}{{ forloop.Counter }}{% endfor %}",
 		"{{ [{E}, {E}] }}", "{{ [{E}]|first }}", "{{ [{E}, {E}]|join:{E} }}", "{% for x in [{E}, {E}] sorted %}{{ x }}{% endfor %}", "{{ {E}|default:{E}|length }}",
 	}
 }
@@ -243,6 +247,34 @@ func run(r *eng.Runner) {
 		})
 	}
 
+	// ---- layer 2b: truncations ----
+	r.Group("truncations", "c01.case", fmt.Sprintf("complete uses of every registered tag (%d; 6 argument forms; plain, with else, nested in itself, after a comment/verbatim) cut off at EVERY byte position, also with one blank appended: the parser's skip-until/wrap-until loops at every possible end of input", len(tags)))
+	argForms := []string{"", "a", "i in l", "x = 1", `"s"`, "a b as c"}
+	for _, tg := range tags {
+		for _, a := range argForms {
+			op := "{% " + tg + " " + a + " %}"
+			if a == "" {
+				op = "{% " + tg + " %}"
+			}
+			en := "{% end" + tg + " %}"
+			fulls := []string{
+				"a" + op + "b" + en + "c",
+				op + "b{% else %}c" + en,
+				op + op + "x" + en + en,
+				"{% comment %}" + op + "{% endcomment %}" + op + en,
+				op + "{{ a }}{% if a %}y{% endif %}" + en + "{# c #}",
+			}
+			for _, f := range fulls {
+				for cut := 1; cut < len(f); cut++ {
+					do("truncated", f[:cut])
+					if f[cut-1] != ' ' {
+						do("truncated", f[:cut]+" ")
+					}
+				}
+			}
+		}
+	}
+
 	// ---- layer 3: resolver ----
 	depth := 2
 	if !q {
@@ -255,7 +287,9 @@ func run(r *eng.Runner) {
 		func(p string) string { return "{% if " + p + " %}a{% endif %}" },
 		func(p string) string { return "{% for x in " + p + " %}{{ x }}{% endfor %}" },
 		func(p string) string { return "{{ " + p + "|length }}" },
-		func(p string) string { return "{% for k, v in " + p + " sorted %}{{ k }}{{ v }}{% endfor %}{{ " + p + "|safe }}" },
+		func(p string) string {
+			return "{% for k, v in " + p + " sorted %}{{ k }}{{ v }}{% endfor %}{{ " + p + "|safe }}"
+		},
 	}
 	for _, name := range names {
 		enum.Seqs(len(stepForms), depth, func(idx []int) bool {
@@ -386,7 +420,7 @@ func init() {
 	eng.Register(&eng.Check{
 		ID:    "C01",
 		Title: "Totality: compiling and executing never panics, crashes or hangs",
-		Rule: "bounded-exhaustive in seven layers, every case compiled and (if it compiles) executed against one context holding the whole value universe, in isolated worker processes (a death or hang of a worker is attributed to the case it had announced): raw strings over the lexer alphabet; token sequences inside {{ }} and as arguments of every registered tag; every universe value x access paths; every registered filter x input x argument through three routes; filter 2-chains; tag/operator schemas with slots filled from the universe; include/extends/import/ssi cycles, deep nesting and resource caps in fresh sub-processes. Oracle: FromString returns exactly one of template/error, Execute returns, no recovered panic, the process survives, the watchdog stays silent. Non-trivial: the case compiles (its execution reaches the evaluator). Cases are distinct by construction.",
+		Rule:  "bounded-exhaustive in seven layers, every case compiled and (if it compiles) executed against one context holding the whole value universe, in isolated worker processes (a death or hang of a worker is attributed to the case it had announced): raw strings over the lexer alphabet; token sequences inside {{ }} and as arguments of every registered tag; every universe value x access paths; every registered filter x input x argument through three routes; filter 2-chains; tag/operator schemas with slots filled from the universe; include/extends/import/ssi cycles, deep nesting and resource caps in fresh sub-processes. Oracle: FromString returns exactly one of template/error, Execute returns, no recovered panic, the process survives, the watchdog stays silent. Non-trivial: the case compiles (its execution reaches the evaluator). Cases are distinct by construction.",
 		Assumptions: []string{
 			"context functions are total; a panic inside caller-supplied code is not the engine's",
 			"hang detection: no progress of a worker for 45 s (cases take microseconds); isolated cases have 60-120 s",
